@@ -13,12 +13,18 @@
 (*                 left its old value, the other clock runs faster)         *)
 EXTENDS Integers, Sequences
 
-PInit(c) == [what |-> c.what, w |-> c.w, k |-> 0, begun |-> FALSE]
+\* paused variant (c.paused): the clock is started, runs c.w + 1 buffers and is paused; only then is the thing scheduled for
+\* tick w, which the clock has already reached; cb events carry tk = the clock was ticking during that buffer.  Nothing
+\* begins while the clock is paused; it begins in the first buffer after the clock was started again.
+PInit(c) == [what |-> c.what, w |-> c.w, k |-> 0, begun |-> FALSE, paused |-> c.paused, ran |-> 0]
 
 Check(m, e) ==
   CASE e.a = "cb" ->
          LET k == m.k + 1 IN
-         IF e.begun /\ k < m.w - 1 THEN "scheduled_thing_not_early"
+         IF m.paused THEN (IF e.begun /\ ~e.tk /\ ~m.begun THEN "nothing_begins_while_the_clock_is_paused"
+                           ELSE IF e.tk /\ m.ran >= 1 /\ ~e.begun THEN "scheduled_thing_not_late"
+                           ELSE "")
+         ELSE IF e.begun /\ k < m.w - 1 THEN "scheduled_thing_not_early"
          ELSE IF ~e.begun /\ k >= m.w THEN "scheduled_thing_not_late"
          ELSE ""
     \* a session of the "pickup" family (PickUpOrder.tla): clock and sound were created while the audio thread was between two
@@ -27,5 +33,6 @@ Check(m, e) ==
     [] e.a = "panic" -> "no_panic"
     [] OTHER -> ""
 
-Upd(m, e) == IF e.a = "cb" THEN [m EXCEPT !.k = @ + 1, !.begun = @ \/ e.begun] ELSE m
+Upd(m, e) == IF e.a = "cb" THEN [m EXCEPT !.k = @ + 1, !.begun = @ \/ e.begun,
+                                          !.ran = IF m.paused /\ e.tk THEN @ + 1 ELSE @] ELSE m
 =============================================================================
